@@ -9,3 +9,6 @@ mod tests;
 
 pub mod statistics;
 pub mod unit;
+
+#[cfg(feature = "verif-hooks")]
+pub mod verif;
